@@ -672,7 +672,7 @@ def r34(ctx, rep):
     br = ctx.func(T.BUILD_RESULT)
     cfg = ctx.cfg(m)
     idx = br.params.index("penalty") if "penalty" in br.params else None
-    if idx is None:
+    if idx is None and "penalty" not in br.kwonly:
         raise AnalysisError("_build_result has no penalty parameter")
     fw = None
     for n in cfg.nodes:
